@@ -106,9 +106,18 @@ class Leaves:
 
 
 def build(node, leaves=None):
-    """Build under whatever interpretation is active."""
+    """Build under whatever interpretation is active.  `leaves.on_built`, if set, is called with every
+    funsor right after it is built, i.e. before its parent is constructed (C20 snapshots sub-terms there)."""
     if leaves is None:
         leaves = Leaves()
+    r = _build(node, leaves)
+    cb = getattr(leaves, "on_built", None)
+    if cb is not None:
+        cb(r)
+    return r
+
+
+def _build(node, leaves):
     B = lambda n: build(n, leaves)  # noqa: E731
     k = node[0]
     if k == "num":
